@@ -5,7 +5,6 @@ package c15
 
 import (
 	iofs "io/fs"
-	"time"
 
 	"github.com/titpetric/vuego"
 
@@ -39,7 +38,7 @@ func (o openOnly) Open(name string) (iofs.File, error) { return o.f.Open(name) }
 func newLower() *memfs.FS {
 	l := memfs.New()
 	for f, v := range lowerLayer {
-		l.Write(f, variants[f][v].Content, time.Unix(lowerMt, 0))
+		l.Write(f, variants[f][v].Content, toTime(lowerMt))
 	}
 	return l
 }
